@@ -63,3 +63,11 @@ package compaction
 //@   invariant[C02] compactOK
 //@ loop (*DefaultCompactionCoordinator).runCompactionCycle#6
 //@   invariant[C02] compactOK
+
+// ---- C12: which files a compaction must take.  Key ranges of table files are inclusive on both ends; a file of the
+// next level that shares even one key with the inputs has to be part of the compaction, otherwise the output (placed
+// below it, or stripped of its deletion markers) leaves an older version on top or lets a deleted key reappear.
+//@ func (*SSTableInfo).Overlaps
+//@   requires s != nil && other != nil
+//@   ensures[C12] len(s.FirstKey) > 0 && len(s.LastKey) > 0 && len(other.FirstKey) > 0 && len(other.LastKey) > 0 ==> (forall k bstr :: !blt(k, bstr(s.FirstKey)) && !blt(bstr(s.LastKey), k) && !blt(k, bstr(other.FirstKey)) && !blt(bstr(other.LastKey), k) ==> result)
+//@   ensures[C12] len(s.FirstKey) > 0 && len(s.LastKey) > 0 && len(other.FirstKey) > 0 && len(other.LastKey) > 0 ==> (result == (!blt(bstr(s.LastKey), bstr(other.FirstKey)) && !blt(bstr(other.LastKey), bstr(s.FirstKey))))
